@@ -57,8 +57,11 @@ def run_real(recipe, root):
     for path in recipe.get("dirs") or []:
         os.makedirs(real(path), exist_ok=True)
     for path, text in recipe["files"].items():
+        os.makedirs(os.path.dirname(real(path)), exist_ok=True)
         with open(real(path), "w", encoding="utf-8", newline="") as fhnd:
             fhnd.write(text)
+    for path, target in (recipe.get("links") or {}).items():
+        os.symlink(real(target), real(path))
     argv = [real(a) for a in recipe["argv"]]
     mod = importlib.import_module(TOOLS[recipe["tool"]])
     stdin = _Tty(recipe.get("stdin", "").encode("utf-8"),
@@ -83,11 +86,13 @@ def run_real(recipe, root):
     finally:
         sys.argv, sys.stdin, sys.stdout, sys.stderr, parsers.stdin = saved
     files = {}
-    for name in sorted(os.listdir(root)):
-        if os.path.isdir(os.path.join(root, name)):
-            continue
-        with open(os.path.join(root, name), "rb") as fhnd:
-            files["/sim/w/" + name] = fhnd.read()
+    for where, _dirs, names in os.walk(root):
+        for name in sorted(names):
+            full = os.path.join(where, name)
+            if not os.path.exists(full):
+                continue        # a dangling link reads as nothing
+            with open(full, "rb") as fhnd:
+                files["/sim/w/" + os.path.relpath(full, root)] = fhnd.read()
     return code, out.getvalue().replace(root + "/", "/sim/w/"), files
 
 
@@ -100,12 +105,14 @@ def main():
     bad = 0
     done = 0
     skipped = 0
+    linked = 0
     for idx in range(args.count):
         rng = random.Random("fidelity/%d" % idx)
         if idx % 2 == 0:
             recipe = c17.gen_scenario(rng)
             if recipe["tool"] == "eyaml-rotate-keys" or recipe["unreadable"] \
                     or "-R" in recipe["argv"] \
+                    or any("/../" in a for a in recipe["argv"]) \
                     or any(not p.startswith("/sim/w/")
                            for p in recipe["files"]) \
                     or any(a.startswith("/sim/") and
@@ -126,6 +133,7 @@ def main():
         finally:
             shutil.rmtree(root, ignore_errors=True)
         done += 1
+        linked += 1 if recipe.get("links") else 0
         simcode = sim.exit
         same = (simcode == code and sim.stdout == out and sim.fs == files)
         if not same:
@@ -140,8 +148,9 @@ def main():
                         print("  file %s: sim=%r real=%r" % (
                             name, (sim.fs.get(name) or b"")[:80],
                             (files.get(name) or b"")[:80]))
-    print("fidelity: %d scenarios compared, %d skipped (not expressible on a "
-          "real directory), %d mismatches" % (done, skipped, bad))
+    print("fidelity: %d scenarios compared (%d with a symbolic link), %d "
+          "skipped (not expressible on a real directory), %d mismatches"
+          % (done, linked, skipped, bad))
     sys.exit(1 if bad else 0)
 
 
